@@ -203,6 +203,11 @@ def gen_case_the(rng, tier):
     c['sel'] = [['var', k] for k in sel]
     c['form'] = 'entity' if len(sel) == 1 and rng.random() < 0.5 else 'set_of'
     c['quant'] = 'the'
+    if rng.random() < 0.12:
+        # a description without any condition: the domain itself decides (none / one / several members)
+        c['cond'] = None
+        for d in c['doms']:
+            d[1][:] = d[1][:rng.choice([0, 0, 1, 1, 2])]
     return c
 
 
@@ -333,6 +338,36 @@ def gen_case_flat(rng, tier):
                 list_items=rng.random() < 0.5)
 
 
+def gen_case_flat_scalar(rng, tier=None):
+    """flatten over an attribute that is a single value, not a collection (a value that is not iterable counts as a collection of
+    one) - on data where that value is mostly falsy: 0, '', None, False"""
+    heap, doms = _base(rng, 1, dom_max=5)
+    for o in heap:
+        if rng.random() < 0.6:
+            o[0] = 0
+        if rng.random() < 0.5:
+            o[2] = ''
+        if rng.random() < 0.5:
+            o[4] = rng.choice([None, 0])
+        if rng.random() < 0.5:
+            o[5] = False
+        o[8] = o[0] >= 2
+    name = rng.choice(['a', 'n', 'f', 's', 's'])
+    ft = ['map', ['f', F[name]], ['var', 1]]
+    flat = ['flat', 5, ft]
+    sel = rng.choice([[['var', 1], flat], [flat, ['var', 1]], [flat]])
+    r = rng.random()
+    if r < 0.4:
+        cond = None
+    elif r < 0.8:
+        lit = {'a': [0, 1], 'n': [None, 0, 1], 'f': [False, True], 's': ['', 'u']}[name]
+        cond = ['cmp', rng.choice(['==', '!=']), flat, ['lit', rng.choice(lit)]]
+    else:
+        cond = ['cmp', rng.choice(['==', '!=']), ['map', ['f', F['b']], ['var', 1]], ['lit', rng.randint(0, 2)]]
+    return dict(heap=heap, doms=doms, binders=[['var', 1], ['flat', 5, ft]], sel=sel, cond=cond,
+                form='set_of' if len(sel) > 1 or rng.random() < 0.5 else 'entity')
+
+
 def gen_case_concat(rng, tier):
     """concatenate(x.items) (node 6, inner variable 1) alone, or tested for (non-)membership by an outer variable 2"""
     heap, doms = _base(rng, 2, dom_max=4)
@@ -357,8 +392,22 @@ def gen_case_concat(rng, tier):
     cond = ['in', item, conc] if rng.random() < 0.5 else ['contains', conc, item]
     if rng.random() < 0.4:
         cond = ['not', cond, 'fn']
-    return dict(heap=heap, doms=doms, binders=[cb, ['var', 2]], sel=[['var', 2]], cond=cond,
-                form='entity' if rng.random() < 0.6 else 'set_of', list_items=rng.random() < 0.6)
+    binders, sel = [cb, ['var', 2]], [['var', 2]]
+    if not flat_inside and rng.random() < 0.3:
+        # a SECOND concatenation over the same parent variable, tested as well
+        ct2 = ['map', ['f', F[rng.choice(['items', 'pair', 'b'])]], ['var', 1]]
+        conc2 = ['concat', 7, ct2]
+        item2 = ['map', ['f', F[rng.choice('ab')]], ['var', 2]]
+        cond2 = ['in', item2, conc2] if rng.random() < 0.5 else ['contains', conc2, item2]
+        if rng.random() < 0.5:
+            cond2 = ['not', cond2, 'fn']
+        cond = ['and', cond, cond2, rng.choice(['fn', 'args'])]
+        binders = [cb, ['concat', 7, 1, ct2], ['var', 2]]
+    form = 'entity' if rng.random() < 0.6 else 'set_of'
+    if not flat_inside and rng.random() < 0.25 and doms[0][1]:
+        # the parent variable is selected too: the concatenation does not bind it, it ranges over its whole domain
+        binders, sel, form = binders + [['var', 1]], [['var', 2], ['var', 1]], 'set_of'
+    return dict(heap=heap, doms=doms, binders=binders, sel=sel, cond=cond, form=form, list_items=rng.random() < 0.6)
 
 
 def gen_case_join(rng, tier=None):
